@@ -33,7 +33,8 @@ Definition difop_layout_ok (d : desc) : bool :=
       | _ => (d_off_difop_vert d + 3 * d_laser_num d <=? d_sizeof_difop d) && (d_off_difop_horiz d + 3 * d_laser_num d <=? d_sizeof_difop d)
       end
   | Mems => (d_off_difop_return_mode d + 1 <=? d_sizeof_difop d) && (d_off_difop_sn d + 6 <=? d_sizeof_difop d) &&
-            (d_off_difop_vol12 d + 2 <=? d_sizeof_difop d) && (d_off_difop_bottom_ver d + 5 <=? d_sizeof_difop d)
+            (d_off_difop_vol12 d + 2 <=? d_sizeof_difop d) && (d_off_difop_bottom_ver d + 5 <=? d_sizeof_difop d) &&
+            (d_off_difop_mac d + 6 <=? d_sizeof_difop d) && (d_off_difop_top_ver d + 5 <=? d_sizeof_difop d)
   end.
 
 (* table indices: channel tables cover every channel index; the laser index is below the calibration
